@@ -7,7 +7,7 @@ use serde::{Deserializer, Serializer};
 use serde_derive::{Deserialize, Serialize};
 
 use std::collections::hash_map::DefaultHasher;
-use std::collections::{BTreeMap, HashMap, HashSet};
+use std::collections::{BTreeMap, BTreeSet, HashMap, HashSet};
 use std::hash::{Hash, Hasher};
 use std::path::Path;
 use std::sync::atomic::{AtomicU64, Ordering};
@@ -248,6 +248,22 @@ impl User {
     }
 
     fn validate(&self) -> Result<(), Error> {
+        if self.pool_size == 0 {
+            error!("pool_size of user {} must be greater than 0", self.username);
+            return Err(Error::BadConfig);
+        }
+
+        for (name, timeout) in [
+            ("connect_timeout", self.connect_timeout),
+            ("idle_timeout", self.idle_timeout),
+            ("server_lifetime", self.server_lifetime),
+        ] {
+            if timeout == Some(0) {
+                error!("{} of user {} must be greater than 0", name, self.username);
+                return Err(Error::BadConfig);
+            }
+        }
+
         if let Some(min_pool_size) = self.min_pool_size {
             if min_pool_size > self.pool_size {
                 error!(
@@ -708,6 +724,40 @@ impl Pool {
                 }
             };
             shard.validate()?;
+        }
+
+        // Shards are addressed by position, so they must be numbered 0, 1, 2, ...
+        // without gaps or repetition (e.g. "1" and "01").
+        if self.shards.is_empty() {
+            error!("At least one shard must be configured");
+            return Err(Error::BadConfig);
+        }
+
+        let shard_ids = self
+            .shards
+            .keys()
+            .filter_map(|shard_idx| shard_idx.parse::<usize>().ok())
+            .collect::<BTreeSet<usize>>();
+
+        if shard_ids.len() != self.shards.len()
+            || shard_ids.iter().next_back() != Some(&(self.shards.len() - 1))
+        {
+            error!(
+                "Shards must be numbered consecutively starting at 0, got: {:?}",
+                self.shards.keys().collect::<Vec<&String>>()
+            );
+            return Err(Error::BadConfig);
+        }
+
+        for (name, timeout) in [
+            ("connect_timeout", self.connect_timeout),
+            ("idle_timeout", self.idle_timeout),
+            ("server_lifetime", self.server_lifetime),
+        ] {
+            if timeout == Some(0) {
+                error!("{} must be greater than 0", name);
+                return Err(Error::BadConfig);
+            }
         }
 
         for (option, name) in [
@@ -1526,6 +1576,17 @@ impl Config {
                 }
             }
         };
+
+        for (name, timeout) in [
+            ("connect_timeout", self.general.connect_timeout),
+            ("idle_timeout", self.general.idle_timeout),
+            ("server_lifetime", self.general.server_lifetime),
+        ] {
+            if timeout == 0 {
+                error!("{} must be greater than 0", name);
+                return Err(Error::BadConfig);
+            }
+        }
 
         for pool in self.pools.values_mut() {
             pool.validate()?;
